@@ -58,8 +58,11 @@ func lookupNode[T any](urlTree *URLTree[T], url string) lookupNodeResult[T] {
 	var foundWildcardNode *Node[T]
 	urlPath := ""
 	for _, urlPart := range splitURL {
-		if currentNode.WildcardChild != nil {
-			foundWildcardNode = currentNode.WildcardChild
+		// a path wildcard ("host.com/*") does not extend the host: it is not remembered for a
+		// further host label ("host.com.other"); a bare "*" at the root accepts any URL
+		if wildcardChild := currentNode.WildcardChild; wildcardChild != nil &&
+			(currentNode == urlTree.Root || wildcardChild.IsPartOfHost || !urlPart.IsPartOfHost) {
+			foundWildcardNode = wildcardChild
 		}
 		child, found := currentNode.ConstantChildren[urlPart.Value]
 		if found && child.IsPartOfHost == urlPart.IsPartOfHost {
